@@ -26,14 +26,14 @@ Definition doc_block_wf (d : doc) : bool :=
 (* ---- snapshot generation keeps kinds -------------------------------------------------------------------------------------------- *)
 Lemma finish_element_kind a st children r : finish_element a st children = Ok (Some r) ->
   e_kind (eattrs r) = e_kind a /\
-  (match e_kind a with KP | KRt | KRtc => True | _ => echildren r = children end).
+  (match e_kind a with KP | KRt | KRtc | KRp => True | _ => echildren r = children end).
 Proof.
   unfold finish_element. intros H. destruct (negb (push_children_ok (e_kind a) children) && is_nonempty_l children); [discriminate|].
   set (children' := match e_kind a with
-                    | KP | KRt | KRtc => match children with [] => [] | _ => lwsp_children (isd_attrs a st) children end
+                    | KP | KRt | KRtc | KRp => match children with [] => [] | _ => lwsp_children (isd_attrs a st) children end
                     | _ => children end) in H.
   assert (G : forall x, x = Elem (isd_attrs a (strip_inapplicable (e_kind a) st)) children' ->
-              e_kind (eattrs x) = e_kind a /\ match e_kind a with KP | KRt | KRtc => True | _ => echildren x = children end).
+              e_kind (eattrs x) = e_kind a /\ match e_kind a with KP | KRt | KRtc | KRp => True | _ => echildren x = children end).
   { intros x ->. split; [reflexivity|]. unfold children'. destruct (e_kind a); try exact I; reflexivity. }
   destruct (keep_always (e_kind a)); [injection H as <-; apply G; reflexivity|].
   destruct children'; [|injection H as <-; apply G; reflexivity].
@@ -68,7 +68,7 @@ Qed.
 Lemma proc_inv d t sel e inh par pb pe r : proc d t sel inh par pb pe e = Ok (Some r) ->
   e_kind (eattrs r) = e_kind (eattrs e) /\
   (match e_kind (eattrs e) with
-   | KP | KRt | KRtc => True
+   | KP | KRt | KRtc | KRp => True
    | _ => exists assoc par' pb' pe', sub_results (fun c x => proc d t sel assoc par' pb' pe' c = Ok (Some x)) (echildren e) (echildren r)
    end).
 Proof.
